@@ -94,6 +94,10 @@ Definition write (v : vec) : vec :=
 
 Definition is_dirty (v : vec) : bool := negb (Nat.eqb (length (pushed v)) 0).
 
+(* values pushed by hand (WritableVec::push, no write): they stay in the pushed buffer *)
+Definition hand_push (v : vec) (os : list Out) : vec :=
+  mkVec (stored v) (pushed v ++ os) (vv v) (cv v) (modified v) (disk v) (disk_cv v) (mem_real v) (pages_dirty v).
+
 (* flush + drop + import of the same name and version: the state is what is on disk *)
 Definition reimport (v : vec) : vec :=
   mkVec (disk v) [] (vv v) (disk_cv v) false (disk v) (disk_cv v) (length (disk v)) false.
@@ -250,6 +254,19 @@ Fixpoint in_dom (D : Src -> Prop) (h : list op) : Prop :=
   end.
 
 End Driver.
+
+(* a user closure that fails at index j (it returns a wrong index, so checked_push fails with
+   UnexpectedIndex): `f(self)?` returns before the write and the values computed so far stay in
+   the pushed buffer *)
+Definition with_fail {Src St Out : Type} (j : option nat) (m : method (Src:=Src) (St:=St) (Out:=Out))
+  : method (Src:=Src) (St:=St) (Out:=Out) :=
+  {| target := target m;
+     recover := recover m;
+     step := fun src => let f := step m src in fun st i =>
+       match j with
+       | Some k => if Nat.eqb i k then Err UnexpectedIndex else f st i
+       | None => f st i
+       end |}.
 
 Arguments method : clear implicits.
 Arguments vec : clear implicits.
